@@ -27,7 +27,7 @@ RULE = (
     "dependent_required, with a field validator and a validator yielding get_alias(self).f. Expected external name = "
     "dyn(class_aliaser(alias or name)) (class aliaser skipped when override=False). Views compared: key consumed by "
     "deserialize (every other candidate spelling is rejected with missing/unexpected at the right keys), key emitted by "
-    "serialize, properties / required / dependentRequired of both schemas, loc of structural / field-validator / yielded "
+    "serialize (also under PassThroughOptions(dataclasses=True), a passed-through instance being emitted under its field names), properties / required / dependentRequired of both schemas, loc of structural / field-validator / yielded "
     "errors (plain, nested, flattened), GraphQL output field, input field and argument names and the loc of a GraphQL "
     "argument error (names that are GraphQL identifiers); the plain / nested / flattened data again under one more layer of "
     "constraints (call-level schema=, Annotated item of a list) within the same cache lifetime. distinct_nontrivial counts distinct (configuration, view)."
@@ -192,6 +192,23 @@ def check_config(mod, k, cfg, st: infra.Stats):
             s = serialize(C, obj, **kw)
             if set(s) != {ext, other_ext}:
                 viol("serialize", f"keys {sorted(s)}")
+            # the same keys when dataclasses may be passed through to a JSON library emitting them natively (field names)
+            import dataclasses as _dc
+
+            from apischema import PassThroughOptions
+
+            for T_, o_, exp_keys in ((C, obj, {ext, other_ext}), (H, H(inner=obj) if hasattr(H, "__dataclass_fields__") and "inner" in H.__dataclass_fields__ else None, {inner_ext})):
+                if o_ is None:
+                    continue
+                pt = serialize(T_, o_, pass_through=PassThroughOptions(dataclasses=True), **kw)
+                keys = {f.name for f in _dc.fields(pt)} if _dc.is_dataclass(pt) else set(pt)
+                if keys != exp_keys:
+                    viol("serialize_pass_through", f"keys {sorted(keys)} emitted for {type(pt).__name__} under PassThroughOptions(dataclasses=True)")
+                if T_ is H and not _dc.is_dataclass(pt):
+                    inner_v = pt.get(inner_ext)
+                    ik = {f.name for f in _dc.fields(inner_v)} if _dc.is_dataclass(inner_v) else set(inner_v or ())
+                    if ik != {ext, other_ext}:
+                        viol("serialize_pass_through", f"nested keys {sorted(ik)} under PassThroughOptions(dataclasses=True)")
             # schemas
             for sname, fn in (("deserialization_schema", deserialization_schema), ("serialization_schema", serialization_schema)):
                 sch = fn(C, **kw)
